@@ -54,6 +54,8 @@ def special_pairs():
         ([(1, 2, 3, 4)], [(1, 3, 4, 5, 6)]),
         ({'a': {1: 1, 'b': 2, 'c': 5}}, {'a': {'c': 5}}),       # fixed F1
         ({None: 1, 'a': 2}, {'a': 2}),                         # fixed F3
+        ([1], [1, {'old_value': 5, 'x': 1}]), ({'a': 1}, {'a': 1, 'b': {'old_value': 7}}),   # fixed F30 (t2 was modified)
+        ({'a': {'old_value': 1, 'new_value': 2}}, {'a': {'old_value': 1, 'new_value': 3}, 'old_type': [{'old_value': 0}]}),
         ({'a': (1, 2, 3)}, {'a': (1, 5, 3)}),
         ([{'x': [1, 2]}, {'y': {1, 2}}], [{'x': [2, 1, 3]}, {'y': {2, 3}}]),
         ({'k': 'multi\nline', 'n': None}, {'k': 'multi\nline2', 'n': 0}),
@@ -145,7 +147,7 @@ def run(ctx, impl_only=False):
     from deepdiff import DeepDiff, Delta
     findings = {f['id']: f for f in core.load_findings(ID) if f.get('status') == 'open'}
     n = 900 if ctx.thorough() else 110
-    keys = ['a', 'b', 'c', 'dd', 1, 2, None, 'x y']
+    keys = ['a', 'b', 'c', 'dd', 1, 2, None, 'x y', 'old_value']
     pairs = special_pairs() + FAM.gen_pairs(ctx, n, keys=keys, flat_share=0.3, equal_share=0.03)
     # tuples of scalars edited in place / resized
     gt = Gen(ctx.rng, scalars=[0, 1, 2, 3, 'a', 'b', None, 1.5], kinds=('tuple',), max_depth=1, max_width=6, p_leaf=0)
